@@ -43,15 +43,49 @@ package module
 //@ extern func (ModifierState).Close(m ModifierState) error
 
 // ---- delivery targets: calls on a downstream delivery do not touch the state of the calling pipeline, queue or
-// session (assumed for every implementation; the typestate of deliveries is added under C03).
+// session (assumed for every implementation).
+// Typestate of deliveries (C01, C03, C09, C18). Ghost state, keyed by the identity of the delivery object:
+//   gOpen      deliveries returned by a successful Start that were neither committed nor aborted yet
+//   gAcc       per delivery, the recipients for which AddRcpt returned nil
+//   gBodyErr   per delivery, the result of its last Body call
+//   gCommitted deliveries whose Commit returned nil
+// Start returns a delivery that was not open before (a new transaction). Every other method requires an open
+// delivery; Commit and Abort close it (Commit closes whether or not it returns an error: the weakest convention
+// consistent with every caller in the tree). The "requires[...]" preconditions are obligations for callers under
+// contract for the listed properties.
+//@ ghost var gOpen Set[ref]
+//@ ghost var gAcc Map[ref,Set[string]]
+//@ ghost var gBodyErr Map[ref,error]
+//@ ghost var gCommitted Set[ref]
 //@ extern func (Delivery).AddRcpt(d Delivery, ctx context.Context, rcptTo string, opts smtp.RcptOptions) error
+//@   requires[C01,C03,C09,C18] gOpen[refOf(d)]
+//@   modifies gAcc
+//@   ensures result == nil ==> gAcc == store(old(gAcc), refOf(d), store(old(gAcc)[refOf(d)], rcptTo, true))
+//@   ensures result != nil ==> gAcc == old(gAcc)
 //@ extern func (Delivery).Body(d Delivery, ctx context.Context, header textproto.Header, body buffer.Buffer) error
+//@   requires[C01,C03,C09,C18] gOpen[refOf(d)]
+//@   modifies gBodyErr
+//@   ensures gBodyErr == store(old(gBodyErr), refOf(d), result)
 //@ extern func (Delivery).Abort(d Delivery, ctx context.Context) error
+//@   requires[C01,C03,C09,C18] gOpen[refOf(d)]
+//@   modifies gOpen
+//@   ensures gOpen == store(old(gOpen), refOf(d), false)
 //@ extern func (Delivery).Commit(d Delivery, ctx context.Context) error
+//@   requires[C01,C03,C09,C18] gOpen[refOf(d)]
+//@   modifies gOpen, gCommitted
+//@   ensures gOpen == store(old(gOpen), refOf(d), false)
+//@   ensures gCommitted == store(old(gCommitted), refOf(d), result == nil)
+// BodyNonAtomic reports per-recipient failures through the collector; what a caller may assume about its own
+// collector is stated with the caller (contract "<caller>#BodyNonAtomic$call").
 //@ extern func (PartialDelivery).BodyNonAtomic(d PartialDelivery, ctx context.Context, c StatusCollector, header textproto.Header, body buffer.Buffer)
+//@   requires[C01,C03,C09,C18] gOpen[refOf(d)]
 //@ extern func (StatusCollector).SetStatus(c StatusCollector, rcptTo string, err error)
 //@ extern func (DeliveryTarget).Start(t DeliveryTarget, ctx context.Context, msgMeta *MsgMetadata, mailFrom string) (d Delivery, err error)
-//@   ensures err == nil ==> d != nil
+//@   modifies gOpen, gAcc, gBodyErr, gCommitted
+//@   ensures err == nil ==> d != nil && !old(gOpen)[refOf(d)] && gOpen == store(old(gOpen), refOf(d), true)
+//@   ensures err == nil ==> (forall r string :: !gAcc[refOf(d)][r]) && !gCommitted[refOf(d)] && gBodyErr[refOf(d)] == nil
+//@   ensures err == nil ==> (forall x ref :: x != refOf(d) ==> gAcc[x] == old(gAcc)[x] && gCommitted[x] == old(gCommitted)[x] && gBodyErr[x] == old(gBodyErr)[x])
+//@   ensures err != nil ==> gOpen == old(gOpen) && gAcc == old(gAcc) && gCommitted == old(gCommitted) && gBodyErr == old(gBodyErr)
 
 // ---- tables (C04, C14, C15): a table is a function of (table, key) for the duration of a call (assumption A-iface).
 //@ uninterp func tblOK(t Table, key string) bool
@@ -60,3 +94,16 @@ package module
 //@ extern func (Table).Lookup(t Table, ctx context.Context, s string) (val string, ok bool, err error)
 //@   ensures ok == tblOK(t, s) && err == tblErr(t, s) && val == tblVal(t, s)
 //@ pure func tblHit(t Table, key string) bool = tblErr(t, key) == nil && tblOK(t, key)
+
+// ---- C10: the copy of the metadata handed to a delivery target ----
+// Same identifier, options, flags and connection; the original-recipient mapping is a separate map with the same
+// entries, so that nothing a target does to its copy reaches the metadata the queue keeps and persists.
+//@ func (*MsgMetadata).DeepCopy
+//@   prop C10
+//@   requires msgMeta != nil
+//@   ensures result != nil && fresh(result)
+//@   ensures result.ID == msgMeta.ID && result.OriginalFrom == msgMeta.OriginalFrom && result.DontTraceSender == msgMeta.DontTraceSender && result.Quarantine == msgMeta.Quarantine
+//@   ensures result.SMTPOpts == msgMeta.SMTPOpts && result.Conn == msgMeta.Conn && result.TLSRequireOverride == msgMeta.TLSRequireOverride
+//@   ensures (result.OriginalRcpts == nil) == (msgMeta.OriginalRcpts == nil)
+//@   ensures msgMeta.OriginalRcpts != nil ==> result.OriginalRcpts != msgMeta.OriginalRcpts && fresh(result.OriginalRcpts)
+//@   ensures forall k string :: has(result.OriginalRcpts, k) == has(msgMeta.OriginalRcpts, k) && result.OriginalRcpts[k] == msgMeta.OriginalRcpts[k]
